@@ -30,12 +30,19 @@ class KGTimerHandler:
         return f"timer:{self.name}:{self.interval}"
 
 
+def _is_true(r):
+    # Klong's truth, as :[c;a;b] decides it: everything but 0 and the empty list / string
+    if hasattr(r, "ndim") and r.ndim > 0:
+        return len(r) > 0
+    return bool(r)
+
+
 def _call_periodic(loop: asyncio.BaseEventLoop, name, interval, callback):
     start = loop.time()
 
     def run(handle, fn=callback):
         try:
-            r = fn()
+            r = _is_true(fn())
         except BaseException:
             # a callback that fails ends its timer (nothing is re-armed): say so, so that .timerc
             # does not report having stopped a timer that was no longer running
